@@ -21,6 +21,9 @@ class Rec:
     pass
 
 
+SKIPMD = object()      # observation that carries no metadata (a file write)
+
+
 def _mk_rec_class():
     from streamz import Stream
 
@@ -109,6 +112,18 @@ def build_real(prog, log):
                 n = u[0].pluck(list(spec[1]) if isinstance(spec[1], tuple) else spec[1])
             elif k == "collect":
                 n = u[0].collect()
+            elif k == "sinktxt":
+                # sink_to_textfile on a file-like object: every write is an observation
+                class _W:
+                    def __init__(self, nid):
+                        self.nid = nid
+
+                    def write(self, text):
+                        log.append((self.nid, text, SKIPMD))
+
+                    def close(self):
+                        pass
+                n = u[0].map(str).sink_to_textfile(_W(item[1]), end="|")
             elif k == "sinkf":
                 n = u[0].sink(FUNCS[spec[1]], "t", k=1) if spec[1] == "rec3" else u[0].sink(FUNCS[spec[1]])
             elif k == "union":
@@ -295,6 +310,8 @@ class _Run:
             return (clause, self._first_div(exp), dict(got=got[:12], want=want[:12]))
         if self.mode == "md":
             for (n, v, m), (n2, ev) in zip(self.log, exp):
+                if m is SKIPMD:
+                    continue
                 wantmd = [d for e in ev.prov for d in self.mds[e]]
                 if not (isinstance(m, list) and all(isinstance(d, dict) for d in m)):
                     return ("md-shape", n, dict(value=_fz(v), metadata=repr(m)[:120]))
